@@ -129,7 +129,7 @@ def gen_plan(rng, tier='quick', traces=None):
     kinds_enabled = rng.sample(['pipeline', 'primitives', 'streaming', 'zclient'], rng.randint(1, 4))
     clients = []
     for _ in range(nclients):
-        kind = rng.choice(kinds_enabled) if rng.random() > 0.03 else 'soak'
+        kind = rng.choice(kinds_enabled) if rng.random() > 0.05 else 'soak'
         clients.append(catalog.CLIENT_KINDS[kind](ctx))
     # the scheduler: interleave at call granularity, with duplicate deliveries
     dup_rate = rng.choice([0.0, 0.05, 0.15, 0.3])
@@ -290,6 +290,8 @@ def _call_step(step, objs, results, findings, where, type_only, iso=None):
                 return ('ok', sub)
             if fn == 'caller.soak':
                 return _soak(args, findings, where, type_only)
+            if fn == 'caller.laysoak':
+                return _laysoak(args, findings, where)
             if fn == 'caller.alloc':
                 return ('ok', np.zeros((int(args[0]), 2)))
             if fn == 'caller.fresh':
@@ -380,6 +382,37 @@ def _soak(args, findings, where, type_only):
                                  'detail': {'after': '%d calls on distinct inputs in one process' % count,
                                             'first': _short(e), 'again': _short(e2)}})
     return ('ok', [target, int(count), bad] + acc)
+
+
+def _laysoak(args, findings, where):
+    """Delivery faults at volume: one public function on `count` distinct small inputs, each handed over
+    C-contiguous and in another layout / dtype in the same process; the two results must be equal by value.
+    (Numeric kernels switch code paths with size and contiguity; a handful of calls per run does not sample that.)"""
+    target, count, seed, m, layout = args
+    rr = random.Random(seed)
+    build = SOAK_TARGETS[target]
+    limit = budget.limit_for(m)
+    integral = layout == 'int64'
+    bad = 0
+    acc = []
+    for i in range(int(count)):
+        x = 0.0
+        rows = []
+        for _ in range(int(m)):
+            x += rr.choice([1.0, 1.0, 2.0, 3.0] if integral else [1.0, 1.0, 2.0, 0.5])
+            rows.append([x, float(rr.randint(0, 10 ** 5)) if integral else float(rr.randint(0, 10 ** 6)) / 64.0])
+        c = np.array(rows)
+        alt = worlds.deliver(rows, layout, rr.randrange(1 << 30))
+        e1 = _by_value(_enc_outcome(_invoke(target, list(build(c)), {}, limit, findings, where, integral)))
+        e2 = _by_value(_enc_outcome(_invoke(target, list(build(alt)), {}, limit, findings, where, integral)))
+        if i % 53 == 0:
+            acc.append(sha(e1)[:8])
+        if e1 != e2:
+            bad += 1
+            if bad == 1:
+                findings.append({'oracle': 'P2', 'key': 'P2:%s' % target, 'where': where, 'fn': target,
+                                 'detail': {'layout': layout, 'points': c.tolist(), 'C_contiguous': _short(e1), 'delivered': _short(e2)}})
+    return ('ok', [target, layout, int(count), bad] + acc)
 
 
 def _invoke(fn, args, kw, limit, findings, where, type_only):
